@@ -157,8 +157,14 @@ def gen_spec(seed: int, config: str | None = None) -> dict:
                     else:
                         ops.append({"op": "restart"})
                 else:
-                    if r < 0.55:
+                    if r < 0.45:
                         ops.append({"op": "recv"})
+                    elif r < 0.55:
+                        # keep the generator suspended after k packets; other receives run before it is resumed
+                        ops.append({"op": "recv", "pause": rng.choice([0, 1, 1, 2])})
+                        if rng.random() < 0.8:
+                            ops.append({"op": "recv"})
+                        ops.append({"op": "resume"})
                     elif r < 0.7:
                         ops.append({"op": "recv", "abandon": rng.choice([0, 1, 2])})
                     elif r < 0.85:
@@ -463,6 +469,7 @@ class NodeRunner:
         self.env = env
         self.q = None
         self.inc = None
+        self.paused = None
         self.send_index = 0
 
     # queue object / incarnation
@@ -529,9 +536,11 @@ class NodeRunner:
         self.sim.log("recv-invoke", name)
         self.hist.injected_read_error.discard(name)
         abandon = op.get("abandon")
+        pause = op.get("pause")
         got = 0
         try:
-            gen = self.q.receive()
+            gen = op.get("_gen") or self.q.receive()
+            keep = False
             try:
                 for p in gen:
                     self.record(p)
@@ -539,10 +548,18 @@ class NodeRunner:
                     if abandon is not None and got > abandon:
                         self.sim.probe("generator_abandoned")
                         break
+                    if pause is not None and got > pause:
+                        # suspended, not closed: a second receive() on the same object will overlap with it
+                        self.close_paused()
+                        self.paused = gen
+                        keep = True
+                        self.sim.probe("generator_paused")
+                        break
                     if self.node.get("mode") != "batch":
                         self.sim.yield_point("pkt")
             finally:
-                gen.close()
+                if not keep:
+                    gen.close()
         except OSError as e:
             if name in self.hist.injected_read_error and e.errno == errno.EIO:
                 self.sim.probe("receive_raised_injected_eio")
@@ -556,6 +573,17 @@ class NodeRunner:
             self.hist.recv_errors.append((name, type(e).__name__, str(e)[:200]))
         self.sim.log("recv-return", name, got)
         return got
+
+    def close_paused(self):
+        g, self.paused = getattr(self, "paused", None), None
+        if g is not None:
+            g.close()
+
+    def do_resume(self):
+        g, self.paused = getattr(self, "paused", None), None
+        if g is not None:
+            self.sim.probe("generator_resumed_after_other_receive")
+            self.do_recv({"op": "recv", "_gen": g})
 
     def run_async(self, ns, final=False):
         """Run the async consumer for `ns` of simulated time on a fresh virtual-time loop, then cancel it."""
@@ -632,8 +660,11 @@ class NodeRunner:
                 self.do_recv(op)
             elif kind == "run":
                 self.run_async(op["ns"])
+            elif kind == "resume":
+                self.do_resume()
             elif kind == "restart":
                 sim.probe("reader_restart")
+                self.close_paused()
                 self.new_queue()
             else:
                 raise HarnessError(f"unknown op {kind}")
@@ -643,6 +674,7 @@ class NodeRunner:
             self.finished_script = True
             self.wait_writers()
             # bounded liveness: one more receive() (sync) or 3 poll intervals (async) after the last fault
+            self.do_resume()
             self.inc["final"] = True
             self.hist.in_final.add(node["name"])
             before = len(self.inc["deliveries"])
@@ -1164,7 +1196,7 @@ def spec_size(spec: dict) -> int:
 
 EXPECTED_PROBES = [
     "cut_header", "cut_body", "cut_before-newline", "cut_inside_multibyte", "reader_hit_eof_while_file_cut_inside_record",
-    "generator_abandoned", "reader_restart", "async_cancelled", "final_drain_delivered", "damaged_line_in_file",
+    "generator_abandoned", "generator_paused", "generator_resumed_after_other_receive", "reader_restart", "async_cancelled", "final_drain_delivered", "damaged_line_in_file",
     "file_ends_in_fragment", "fragment_ends_inside_multibyte", "receive_raised_injected_eio", "equal_clock_readings",
     "acked_record_physically_damaged",
 ]
